@@ -142,6 +142,19 @@ CHECKS["C03"] = (
     "C++/C# grammars are empty on this image.",
     "DESIGN.md 3/C03")
 
+CHECKS["C07"] = (
+    "differential testing: dynamic call edges observed by CPython (sys.setprofile) vs lian's stored call paths and analysed P3 frames, over "
+    "Hypothesis-seeded generated 1-3 file Python programs labelled by call kind",
+    "~420 (quick) / 10000 (thorough) generated programs with ~60 kinds of call site (direct, cross-module via from-import / module "
+    "attribute / package / relative import, constructors, receiver and inherited methods, overriding and self dispatch, callbacks passed "
+    "positionally / by keyword / as bound methods, returned closures and functions, functions stored in variables, lists, dicts, fields, "
+    "globals, recursion and mutual recursion) are executed by CPython; every dynamic edge whose dynamic call chain is itself stored and "
+    "analysed must occur as a CallSite of call_paths_p3 and must have an analysed P3 frame under that call site. Entry: %unit_init or a "
+    "configured entry function. Call kinds with an open finding are stepped over by construction and kept as replay files.",
+    "Soundness only (spurious edges are not this property); one concrete execution per program; Python only. Ids are joined by (file, "
+    "line, name), pinned by calibration replays on every run.",
+    "DESIGN.md 3/C07")
+
 NOT_YET = {}
 
 
